@@ -111,49 +111,66 @@ theorem findFrac_some (k : Frac) (a b : List Tok) (h : supportedToks (a ++ .frac
     findFrac k (charsOf (a ++ .frac k :: b)) = some (charsOf a, charsOf b) := by
   rw [findFrac_toks k _ h, splitHit_append _ a (.frac k) b hn (by simp [hitFrac])]; rfl
 
-theorem TF.init_none (fmt : List Char) (loc : Bool) (h : ∀ k, findFrac k fmt = none) :
-    TF.init fmt loc = (SFT.init fmt loc).map (fun p1 => { spec := none, p1 := p1, p2 := none }) := by
+theorem TF.init_none (rr : Bool) (fmt : List Char) (loc : Bool) (h : ∀ k, findFrac k fmt = none) :
+    TF.init rr fmt loc = (SFT.init fmt loc).map (fun p1 => { spec := none, p1 := p1, p2 := none }) := by
   simp only [TF.init, h]
   cases SFT.init fmt loc <;> rfl
 
-theorem TF.init_one (fmt : List Char) (loc : Bool) (k : Frac) (a b : List Char) (hk : findFrac k fmt = some (a, b))
-    (ho : ∀ k', k' ≠ k → findFrac k' fmt = none) :
-    TF.init fmt loc =
+set_option linter.unusedSimpArgs false in
+theorem TF.init_one (rr : Bool) (fmt : List Char) (loc : Bool) (k : Frac) (a b : List Char)
+    (hk : findFrac k fmt = some (a, b)) (ho : ∀ k', k' ≠ k → findFrac k' fmt = none) :
+    TF.init rr fmt loc =
       (SFT.init a loc).bind (fun p1 =>
-        if b = [] then .ok { spec := some k, p1 := p1, p2 := none }
+        if rr = true ∧ ((findFrac .ms b).isSome ∨ (findFrac .us b).isSome ∨ (findFrac .ns b).isSome) then .error .repeated
+        else if b = [] then .ok { spec := some k, p1 := p1, p2 := none }
         else (SFT.init b loc).map (fun p2 => { spec := some k, p1 := p1, p2 := some p2 })) := by
+  have tail : ∀ p1 : SFT,
+      (if b = [] then (pure { spec := some k, p1 := p1, p2 := none } : Except InitError TF)
+        else do
+          let p2 ← SFT.init b loc
+          pure { spec := some k, p1 := p1, p2 := some p2 }) =
+      (if b = [] then .ok { spec := some k, p1 := p1, p2 := none }
+        else (SFT.init b loc).map (fun p2 => { spec := some k, p1 := p1, p2 := some p2 })) := by
+    intro p1
+    by_cases hb : b = []
+    · simp [hb, pure, Except.pure]
+    · simp only [hb, if_false, bind, pure, Except.pure]
+      cases SFT.init b loc <;> simp [Except.map, Except.bind]
   cases k with
   | ms =>
-    simp only [TF.init, hk, ho .us (by decide), ho .ns (by decide)]
+    simp only [TF.init, hk, ho .us (by decide), ho .ns (by decide), Option.isSome_none, Option.isSome_some,
+      Bool.false_eq_true, and_false, false_and, or_false, false_or, if_false]
     cases SFT.init a loc with
     | error e => rfl
     | ok p1 =>
-      by_cases hb : b = []
-      · simp [hb, Except.bind, bind, pure, Except.pure]
-      · simp only [hb, Except.bind, bind, pure, Except.pure]
-        cases SFT.init b loc <;> simp [Except.map]
+      simp only [bind, Except.bind]
+      by_cases hc : rr = true ∧ ((findFrac .ms b).isSome = true ∨ (findFrac .us b).isSome = true ∨ (findFrac .ns b).isSome = true)
+      · rw [if_pos hc, if_pos hc]
+      · rw [if_neg hc, if_neg hc]; exact tail p1
   | us =>
-    simp only [TF.init, hk, ho .ms (by decide), ho .ns (by decide)]
+    simp only [TF.init, hk, ho .ms (by decide), ho .ns (by decide), Option.isSome_none, Option.isSome_some,
+      Bool.false_eq_true, and_false, false_and, or_false, false_or, if_false]
     cases SFT.init a loc with
     | error e => rfl
     | ok p1 =>
-      by_cases hb : b = []
-      · simp [hb, Except.bind, bind, pure, Except.pure]
-      · simp only [hb, Except.bind, bind, pure, Except.pure]
-        cases SFT.init b loc <;> simp [Except.map]
+      simp only [bind, Except.bind]
+      by_cases hc : rr = true ∧ ((findFrac .ms b).isSome = true ∨ (findFrac .us b).isSome = true ∨ (findFrac .ns b).isSome = true)
+      · rw [if_pos hc, if_pos hc]
+      · rw [if_neg hc, if_neg hc]; exact tail p1
   | ns =>
-    simp only [TF.init, hk, ho .ms (by decide), ho .us (by decide)]
+    simp only [TF.init, hk, ho .ms (by decide), ho .us (by decide), Option.isSome_none, Option.isSome_some,
+      Bool.false_eq_true, and_false, false_and, or_false, false_or, if_false]
     cases SFT.init a loc with
     | error e => rfl
     | ok p1 =>
-      by_cases hb : b = []
-      · simp [hb, Except.bind, bind, pure, Except.pure]
-      · simp only [hb, Except.bind, bind, pure, Except.pure]
-        cases SFT.init b loc <;> simp [Except.map]
+      simp only [bind, Except.bind]
+      by_cases hc : rr = true ∧ ((findFrac .ms b).isSome = true ∨ (findFrac .us b).isSome = true ∨ (findFrac .ns b).isSome = true)
+      · rw [if_pos hc, if_pos hc]
+      · rw [if_neg hc, if_neg hc]; exact tail p1
 
-theorem TF.init_two (fmt : List Char) (loc : Bool) (k1 k2 : Frac) (hne : k1 ≠ k2)
+theorem TF.init_two (rr : Bool) (fmt : List Char) (loc : Bool) (k1 k2 : Frac) (hne : k1 ≠ k2)
     (h1 : (findFrac k1 fmt).isSome = true) (h2 : (findFrac k2 fmt).isSome = true) :
-    TF.init fmt loc = .error .exclusive := by
+    TF.init rr fmt loc = .error .exclusive := by
   cases k1 <;> cases k2 <;> first | exact absurd rfl hne | skip
   all_goals simp only [TF.init, h1, h2]; simp
 
@@ -238,14 +255,14 @@ inductive TInv (P : Nat) (tz : Nat → ZInfo) (loc : Bool) (toks : List Tok) (f 
 
 /-- **the constructor accepts** a supported pattern without `%X` and with at most one fractional specifier, and
     establishes the invariant -/
-theorem TF.init_spec (P : Nat) (tz : Nat → ZInfo) (loc : Bool) (toks : List Tok) (h : supportedToks toks = true)
-    (hx : hasX toks = false) (hf : fracCount toks ≤ 1) :
-    ∃ f, TF.init (charsOf toks) loc = .ok f ∧ TInv P tz loc toks f := by
+theorem TF.init_spec (rr : Bool) (P : Nat) (tz : Nat → ZInfo) (loc : Bool) (toks : List Tok)
+    (h : supportedToks toks = true) (hx : hasX toks = false) (hf : fracCount toks ≤ 1) :
+    ∃ f, TF.init rr (charsOf toks) loc = .ok f ∧ TInv P tz loc toks f := by
   rcases Nat.lt_or_ge (fracCount toks) 1 with h0 | h1
   · have hn := fracCount_zero toks (by omega)
     have hnone : ∀ k, findFrac k (charsOf toks) = none :=
       fun k => findFrac_none k toks h (fun t ht => hitFrac_false_of_not_frac k t (hn t ht))
-    rw [TF.init_none _ _ hnone, SFT.init_accept toks loc h hx]
+    rw [TF.init_none rr _ _ hnone, SFT.init_accept toks loc h hx]
     exact ⟨{ spec := none, p1 := SFT.fresh toks loc, p2 := none }, rfl,
       TInv.plain hn rfl rfl (SFT.init_inv P tz toks loc)⟩
   · obtain ⟨k, a, b, he, ha, hb⟩ := fracCount_one toks (by omega)
@@ -264,15 +281,20 @@ theorem TF.init_spec (P : Nat) (tz : Nat → ZInfo) (loc : Bool) (toks : List To
       · exact hitFrac_false_of_not_frac k' t (ha t ht)
       · simpa [hitFrac] using hne
       · exact hitFrac_false_of_not_frac k' t (hb t ht)
-    rw [TF.init_one _ loc k _ _ hk ho, SFT.init_accept a loc hsa hxa]
+    have hbn : ∀ k', findFrac k' (charsOf b) = none :=
+      fun k' => findFrac_none k' b hsb.2.2 (fun t ht => hitFrac_false_of_not_frac k' t (hb t ht))
+    have hnr : ¬ (rr = true ∧ ((findFrac .ms (charsOf b)).isSome = true ∨ (findFrac .us (charsOf b)).isSome = true ∨
+        (findFrac .ns (charsOf b)).isSome = true)) := by simp [hbn]
+    rw [TF.init_one rr _ loc k _ _ hk ho, SFT.init_accept a loc hsa hxa]
+    simp only [Except.bind, if_neg hnr]
     by_cases hbe : b = []
     · subst hbe
-      exact ⟨{ spec := some k, p1 := SFT.fresh a loc, p2 := none }, by simp [Except.bind],
+      exact ⟨{ spec := some k, p1 := SFT.fresh a loc, p2 := none }, by simp,
         TInv.split k a [] rfl ha hb rfl (SFT.init_inv P tz a loc) (Or.inl ⟨rfl, rfl⟩)⟩
     · have hce : charsOf b ≠ [] := fun e => hbe ((charsOf_eq_nil b).1 e)
       rw [SFT.init_accept b loc hsb.2.2 hxb]
       exact ⟨{ spec := some k, p1 := SFT.fresh a loc, p2 := some (SFT.fresh b loc) },
-        by simp [Except.bind, hce, Except.map],
+        by simp [hce, Except.map],
         TInv.split k a b rfl ha hb rfl (SFT.init_inv P tz a loc) (Or.inr ⟨_, rfl, SFT.init_inv P tz b loc⟩)⟩
 
 /-- **one call of `TimestampFormatter::format_timestamp`** -/
@@ -341,8 +363,8 @@ theorem findFrac_isSome_of_mem (k : Frac) (toks : List Tok) (h : supportedToks t
     simp [hitFrac] at this
 
 /-- two different fractional specifiers: the constructor throws -/
-theorem TF.init_exclusive (toks : List Tok) (loc : Bool) (h : supportedToks toks = true) (hk : 2 ≤ kindCount toks) :
-    TF.init (charsOf toks) loc = .error .exclusive := by
+theorem TF.init_exclusive (rr : Bool) (toks : List Tok) (loc : Bool) (h : supportedToks toks = true)
+    (hk : 2 ≤ kindCount toks) : TF.init rr (charsOf toks) loc = .error .exclusive := by
   have key : ∃ k1 k2 : Frac, k1 ≠ k2 ∧ hasKind k1 toks = true ∧ hasKind k2 toks = true := by
     simp only [kindCount] at hk
     cases h1 : hasKind .ms toks <;> cases h2 : hasKind .us toks <;> cases h3 : hasKind .ns toks <;>
@@ -352,7 +374,7 @@ theorem TF.init_exclusive (toks : List Tok) (loc : Bool) (h : supportedToks toks
     · exact ⟨.ms, .us, by decide, h1, h2⟩
     · exact ⟨.ms, .us, by decide, h1, h2⟩
   obtain ⟨k1, k2, hne, h1, h2⟩ := key
-  exact TF.init_two _ loc k1 k2 hne (findFrac_isSome_of_mem k1 toks h (hasKind_mem k1 toks h1))
+  exact TF.init_two rr _ loc k1 k2 hne (findFrac_isSome_of_mem k1 toks h (hasKind_mem k1 toks h1))
     (findFrac_isSome_of_mem k2 toks h (hasKind_mem k2 toks h2))
 
 end Time
